@@ -9,6 +9,7 @@ import (
 	"math/big"
 	"os"
 	"sort"
+	"strconv"
 	"strings"
 )
 
@@ -378,68 +379,50 @@ func ruleFmtF(c *Ctx) {
 			if digs == "" && e != 0 {
 				continue
 			}
+			if c.Tier != "thorough" && (e == -8 || e == -6 || e == -5 || e == 4) {
+				continue
+			}
 			for prec := 0; prec <= 11 && bad == ""; prec++ {
 				if -e > prec {
 					continue // callers round to the precision first: the fraction never exceeds it
 				}
+				if c.Tier != "thorough" && (prec == 4 || prec == 6 || prec == 7 || prec == 10) {
+					continue
+				}
 				for _, forceDP := range []bool{false, true} {
-					for _, neg := range []bool{false, true} {
-						in := newInterp(p)
-						in.exact = true
-						in.inlineAll = true
-						in.intrinsics["builtin.append"] = func(in *interp, st *state, call *ast.CallExpr, recv AV, args []AV) ([]AV, bool) {
-							s, ok := args[0].(avStr)
-							if !ok {
-								return []AV{top}, true
-							}
-							out := s.s
-							for i, a := range args[1:] {
-								switch v := a.(type) {
-								case avInt:
-									if v.v < 0 || v.v > 255 {
-										return []AV{top}, true
-									}
-									out += string(rune(v.v))
-								case avStr:
-									if call.Ellipsis == token.NoPos || i != 0 {
-										return []AV{top}, true
-									}
-									out += v.s
-								default:
-									return []AV{top}, true
-								}
-							}
-							return []AV{avStr{out}}, true
-						}
-						in.intrinsics["builtin.make"] = func(in *interp, st *state, call *ast.CallExpr, recv AV, args []AV) ([]AV, bool) {
-							return []AV{avStr{""}}, true
-						}
-						in.intrinsics["builtin.cap"] = func(in *interp, st *state, call *ast.CallExpr, recv AV, args []AV) ([]AV, bool) {
-							return []AV{avInt{0}}, true
-						}
-						in.intrinsics["digits.pad"] = func(in *interp, st *state, call *ast.CallExpr, recv AV, args []AV) ([]AV, bool) {
-							return []AV{args[0]}, true // width 0: no padding (decided by E10.flags / the pad rule)
-						}
+					for _, sg := range []struct {
+						neg, printSign, padSign bool
+						prefix                  string
+					}{{false, false, false, ""}, {true, false, false, ""}, {false, true, false, "x="}, {false, false, true, "-1.5 "}, {true, true, true, "0"}} {
+						neg := sg.neg
+						in := textInterp(p)
 						st := newState()
 						st.vars[recv] = avRef{"d"}
 						st.flds["ref:d.neg"] = avBool{neg}
 						st.flds["ref:d.dig"] = avStr{digs}
 						st.flds["ref:d.exp"] = avInt{int64(e)}
 						st.flds["ref:d.ndig"] = avInt{int64(len(digs))}
-						st.vars[ps[0]] = avStr{""}
+						st.vars[ps[0]] = avStr{sg.prefix}
 						st.vars[ps[1]] = avInt{int64(prec)}
 						st.vars[ps[2]] = avInt{0}
 						st.vars[ps[3]] = avBool{forceDP}
 						for _, fo := range ps[4:] {
 							st.vars[fo] = avBool{false}
 						}
+						st.vars[ps[4]] = avBool{sg.printSign}
+						st.vars[ps[5]] = avBool{sg.padSign}
 						in.curFn = append(in.curFn, fd)
 						flows := in.execBlock(fd.Body.List, st)
 						n++
 						// reference
-						want := ""
-						if neg {
-							want = "-"
+						want := sg.prefix
+						switch {
+						case neg:
+							want += "-"
+						case sg.printSign:
+							want += "+"
+						case sg.padSign:
+							want += " "
 						}
 						dp := len(digs) + e
 						switch {
@@ -488,7 +471,7 @@ func ruleFmtF(c *Ctx) {
 									}
 								}
 							}
-							bad = fmt.Sprintf("digits %q with exponent %d, precision %d, forceDP=%v, negative=%v are written as %q, want %q", digs, e, prec, forceDP, neg, got, want)
+							bad = fmt.Sprintf("digits %q with exponent %d, precision %d, forceDP=%v, negative=%v, printSign=%v, padSign=%v appended to %q give %q, want %q", digs, e, prec, forceDP, neg, sg.printSign, sg.padSign, sg.prefix, got, want)
 							break
 						}
 					}
@@ -912,4 +895,171 @@ func entryLenLocals(p *Prog, fd *ast.FuncDecl, buf types.Object) map[types.Objec
 		}
 	}
 	return out
+}
+
+// textInterp returns an exact interpreter in which byte slices are strings: append concatenates, make gives
+// the empty slice, cap is 0 and digits.pad returns its buffer (width 0; padding is decided by E10.pad).
+func textInterp(p *Prog) *interp {
+	in := newInterp(p)
+	in.exact = true
+	in.inlineAll = true
+	in.intrinsics["builtin.append"] = func(in *interp, st *state, call *ast.CallExpr, recv AV, args []AV) ([]AV, bool) {
+		s, ok := args[0].(avStr)
+		if !ok {
+			return []AV{top}, true
+		}
+		out := s.s
+		for i, a := range args[1:] {
+			switch v := a.(type) {
+			case avInt:
+				if v.v < 0 || v.v > 255 {
+					return []AV{top}, true
+				}
+				out += string(rune(v.v))
+			case avStr:
+				if call.Ellipsis == token.NoPos || i != 0 {
+					return []AV{top}, true
+				}
+				out += v.s
+			default:
+				return []AV{top}, true
+			}
+		}
+		return []AV{avStr{out}}, true
+	}
+	in.intrinsics["builtin.make"] = func(in *interp, st *state, call *ast.CallExpr, recv AV, args []AV) ([]AV, bool) {
+		return []AV{avStr{""}}, true
+	}
+	in.intrinsics["builtin.cap"] = func(in *interp, st *state, call *ast.CallExpr, recv AV, args []AV) ([]AV, bool) {
+		if s, ok := args[0].(avStr); ok {
+			return []AV{avInt{int64(len(s.s))}}, true // a full slice: capacity = length (0 for an empty one)
+		}
+		return []AV{top}, true
+	}
+	in.intrinsics["digits.pad"] = func(in *interp, st *state, call *ast.CallExpr, recv AV, args []AV) ([]AV, bool) {
+		return []AV{args[0]}, true // width 0: no padding (decided by E10.flags / the pad rule)
+	}
+	return in
+}
+
+// digits.fmtE by interpretation on concrete digit strings: for digits "d1..dn" with decimal exponent e and a
+// precision that covers them (what every caller passes after rounding), the text appended must be the
+// scientific numeral: sign, first digit, '.', the remaining digits padded with zeros to the precision, the
+// exponent character, the sign and the digits of e+n-1 (two at least when padded) - after whatever the
+// buffer already held.
+func ruleFmtE(c *Ctx) {
+	p := c.P
+	props := []string{"C06", "C07", "C13"}
+	fd := c.fn("digits.fmtE")
+	if fd == nil {
+		return
+	}
+	ps := paramObjs(p, fd)
+	recv := recvObj(p, fd)
+	if len(ps) != 10 || recv == nil {
+		c.undecided("fmte.shape", fd, "fmtE(buf, prec, width, forceDP, printSign, padSign, padExp, padRight, padZero, e) expected", props...)
+		return
+	}
+	bad := ""
+	n := 0
+	type combo struct {
+		printSign, padSign bool
+		ech                byte
+		prefix             string
+	}
+	combos := []combo{{false, false, 'e', ""}, {true, false, 'E', "x="}, {false, true, 'e', "1e+5 "}}
+	exps := []int{-6200, -120, -12, -3, -1, 0, 1, 9, 98, 999, 6144}
+	maxPrec := 7
+	if c.Tier == "thorough" {
+		exps = []int{-6200, -1003, -120, -12, -9, -3, -2, -1, 0, 1, 2, 5, 9, 12, 98, 150, 999, 6144}
+		maxPrec = 12
+	}
+	for _, digs := range []string{"", "7", "25", "123", "9000001"} {
+		for _, e := range exps {
+			if digs == "" && e != 0 {
+				continue
+			}
+			for prec := 0; prec <= maxPrec && bad == ""; prec++ {
+				if len(digs)-1 > prec {
+					continue // callers round to prec+1 digits first
+				}
+				for k := 0; k < 8 && bad == ""; k++ {
+					forceDP, neg, padExp := k&1 != 0, k&2 != 0, k&4 != 0
+					for _, cb := range combos {
+						in := textInterp(p)
+						st := newState()
+						st.vars[recv] = avRef{"d"}
+						st.flds["ref:d.neg"] = avBool{neg}
+						st.flds["ref:d.dig"] = avStr{digs}
+						st.flds["ref:d.exp"] = avInt{int64(e)}
+						st.flds["ref:d.ndig"] = avInt{int64(len(digs))}
+						st.vars[ps[0]] = avStr{cb.prefix}
+						st.vars[ps[1]] = avInt{int64(prec)}
+						st.vars[ps[2]] = avInt{0}
+						st.vars[ps[3]] = avBool{forceDP}
+						st.vars[ps[4]] = avBool{cb.printSign}
+						st.vars[ps[5]] = avBool{cb.padSign}
+						st.vars[ps[6]] = avBool{padExp}
+						st.vars[ps[7]] = avBool{false}
+						st.vars[ps[8]] = avBool{false}
+						st.vars[ps[9]] = avInt{int64(cb.ech)}
+						in.curFn = append(in.curFn, fd)
+						flows := in.execBlock(fd.Body.List, st)
+						n++
+						want := cb.prefix
+						switch {
+						case neg:
+							want += "-"
+						case cb.printSign:
+							want += "+"
+						case cb.padSign:
+							want += " "
+						}
+						x := e
+						if digs == "" {
+							want += "0"
+						} else {
+							want += digs[:1]
+							x = e + len(digs) - 1
+						}
+						if prec > 0 {
+							rest := ""
+							if digs != "" {
+								rest = digs[1:]
+							}
+							want += "." + rest + strings.Repeat("0", prec-len(rest))
+						} else if forceDP {
+							want += "."
+						}
+						want += string(rune(cb.ech))
+						if x < 0 {
+							want += "-"
+							x = -x
+						} else {
+							want += "+"
+						}
+						if x < 10 && padExp {
+							want += "0"
+						}
+						want += strconv.Itoa(x)
+						got := "?"
+						if len(flows) == 1 && flows[0].kind == flowReturn && !in.overflow {
+							if s, ok := flows[0].ret.(avStr); ok {
+								got = s.s
+							} else if tup, ok := flows[0].ret.(*avTuple); ok && len(tup.vs) == 1 {
+								if s, ok := tup.vs[0].(avStr); ok {
+									got = s.s
+								}
+							}
+						}
+						if got != want {
+							bad = fmt.Sprintf("digits %q with exponent %d, precision %d, forceDP=%v, negative=%v, printSign=%v, padSign=%v, padExp=%v appended to %q give %q, want %q", digs, e, prec, forceDP, neg, cb.printSign, cb.padSign, padExp, cb.prefix, got, want)
+							break
+						}
+					}
+				}
+			}
+		}
+	}
+	c.check(bad == "", "fmte.text", fd, fmt.Sprintf("fmtE appends the scientific numeral for every digit string, exponent, precision and flag combination tried (%d evaluations against a reference)", n), "digits.fmtE: "+bad, props...)
 }
